@@ -13,6 +13,8 @@ Arguments div {T}. Arguments opp {T}. Arguments leb {T}.
 Inductive cmode := Alias | Copy.            (* the same buffer / a new one *)
 Inductive tkind := InPlace | Rebind.        (* `mesh.vertices[i] += e`  /  `mesh.vertices[i] = e` *)
 Inductive dorig := DZero | DVertex0.        (* default origin of a transform *)
+(* which mesh the connectivity object handed to a copy answers from: the copy itself, the source, or a hidden clone *)
+Inductive backref := BackToCopy | BackToSource | BackToClone.
 Inductive slotsrc := SFresh | SSame (k : nat).  (* a producer appends a new vector / the vector already stored in slot k *)
 
 Definition vec (T : Type) : Type := (T * T * T)%type.
